@@ -25,27 +25,42 @@ Print Assumptions C06_tag_pop_concat.
 (** visiting the serialized bytes with the type's tag reports exactly the value (sequence lengths, member names,
     selected alternative or null, every leaf with its kind and value) and consumes exactly its bytes.
     PARTIAL: proved for [simple] types (arithmetic, adapted enums over integral types - the enumerator is found by the same text search the code
-    does -, sequences, tuples, optionals, variants, non-empty structs; no empty structs, no enums over bool, monostate only as a variant alternative),
-    values whose sequences have at most 32 elements (the repeat collapsing is not involved) and nesting up to the
-    documented limit 2048. Empty structs, longer sequences and hand-written recursive tags are tied by the
-    correspondence runs (callback-by-callback against the real mserialize::visit) only. *)
-Theorem C06_visit_agrees_partial : forall v t rest, wt t v = true -> simple false t = true -> ty_ok t = true ->
-  short v = true -> (depth t <= 2048)%nat ->
+    does -, sequences of any length (more than 32 zero-size elements are reported once with the count: C06_singular_is_zero_size decides which), tuples,
+    optionals, variants, structs - an empty struct {Name} under the hypothesis [empties]: the complete tag holds no definition of that name, which is how the
+    code tells it from a recursive reference; no enums over bool, monostate only as a variant alternative) and nesting up to the documented limit 2048.
+    Hand-written recursive tags are tied by the correspondence runs (callback-by-callback against the real mserialize::visit) only. *)
+Theorem C06_visit_agrees_partial : forall v t rest, wt t v = true -> simple false t = true -> ty_ok t = true -> empties (tag t) t ->
+  (depth t <= 2048)%nat ->
   visit false no_special 2048 (tag t) (tag t) (enc t v ++ rest) = VOk (callbacks t v, rest).
 Proof. exact visit_agrees_2048. Qed.
 Print Assumptions C06_visit_agrees_partial.
 
 (** the same for a visitor that takes whole strings and for any printStruct hook that leaves the type's struct names alone (what ToStringVisitor is) *)
-Theorem C06_visit_agrees_any_visitor : forall full b sp v t inv, wt t v = true -> simple inv t = true -> t <> TUnit -> ty_ok t = true -> short v = true -> plain sp t ->
+Theorem C06_visit_agrees_any_visitor : forall full b sp v t inv, wt t v = true -> simple inv t = true -> t <> TUnit -> ty_ok t = true -> plain sp t -> empties full t ->
   forall fuel rest, (depth t <= fuel)%nat -> visit b sp fuel full (tag t) (Encode.spec_enc t v ++ rest) = VOk (callbacks_b b t v, rest).
 Proof. exact visit_agrees_gen. Qed.
 Print Assumptions C06_visit_agrees_any_visitor.
+
+(** the singular check of Singular.hpp answers "zero bytes per value" exactly, for every type of the universe *)
+Theorem C06_singular_is_zero_size : forall full t fuel, simple true t = true -> ty_ok t = true -> empties full t -> (depth t <= fuel)%nat ->
+  singular fuel full (tag t) = Some (zero_size t).
+Proof. exact singular_agrees. Qed.
+Print Assumptions C06_singular_is_zero_size.
 
 (** the enumerator reported for an adapted enum is the first one whose VALUE is the value visited (the hex text determines the value) *)
 Theorem C06_enumerator_is_found_by_value : forall a es x, (x < 256 ^ N.of_nat (awidth a))%N -> Forall (fun e => (fst e < 256 ^ N.of_nat (awidth a))%N) es ->
   lookup a es (hex_Z (raw_to_Z a x)) = first_with_value es x.
 Proof. exact lookup_by_value. Qed.
 Print Assumptions C06_enumerator_is_found_by_value.
+
+(** the [empties] hypothesis is satisfiable: a struct holding an empty struct and a sequence of 40 of them (collapsed) *)
+Example C06_empty_struct_nonvacuous :
+  let e := TStruct [69] [] in
+  let t := TStruct [79] [([97], e); ([98], TSeq (mkSK true None) e); ([99], TArith AU8)] in
+  let v := VTup [VTup []; VSeq (repeat (VTup []) 40); VRaw 7] in
+  (resolve_recursive_tag (tag t) (123 :: [69]) = []) /\ wt t v = true /\ simple false t = true /\
+  visit false no_special 2048 (tag t) (tag t) (enc t v) = VOk (callbacks t v, []) /\ List.length (callbacks t v) = 17%nat.
+Proof. vm_compute. repeat split; reflexivity. Qed.
 
 Example C06_nonvacuous :
   let t := TStruct [83] [([97], TSeq (mkSK true None) (TArith AI16)); ([98], TOpt (TVariant [TUnit; TTuple [TArith ABool; TArith AU8]]))] in
